@@ -57,7 +57,7 @@ def base():
                              'buildVars: [GLOBAL]\n'
                              'buildVarsWeak: [WV]\n'
                              'buildTools: [t]\n'
-                             'buildScript: |\n    echo lib-build\n    cat $<<inc/data.txt>>\n    echo $<\'inc/lit.txt\'>\n'
+                             'buildScript: |\n    echo lib-build\n    cat $<<inc/data.txt>>\n    echo $<\'inc/lit.txt\'>\n    cat $<<inc/*.txt>>\n'
                              'packageVars: [PV]\n'
                              'packageScript: |\n    echo lib-pkg\n'
                              'provideVars:\n    PROVIDED: "from-lib-${LV}"\n'
